@@ -226,6 +226,8 @@ func Run(sc Scenario) Result {
 			b.RegisterNode("after-failed-call", &sink{})
 			b.Reopen(ctx)
 			b.SetSuccessThreshold("outer", 0)
+			b.SetSuccessThresholdSinks("inner", 0)
+			b.Send(ctx, "inner", "after the thresholds were set again")
 			if _, e2 := b.RemovePipelineAndNodes(ctx, "inner", "inner"); e2 != nil {
 				err = fmt.Errorf("RemovePipelineAndNodes after the failed call: %v", e2)
 			}
@@ -367,6 +369,10 @@ func failingCall(b *eventlogger.Broker, which string) error {
 		err = b.SetSuccessThresholdSinks("", 1)
 	case "send-unknown-type":
 		_, err = b.Send(ctx, "no-such-type", "x")
+	case "send-precancelled":
+		cctx, cancel := context.WithCancel(ctx)
+		cancel()
+		_, err = b.Send(cctx, "inner", "x")
 	case "send-threshold-unmet":
 		b.SetSuccessThreshold("inner", 5)
 		_, err = b.Send(ctx, "inner", "x")
@@ -379,7 +385,7 @@ func failingCall(b *eventlogger.Broker, which string) error {
 var FailingCalls = []string{"rpan-unknown-pipeline", "rpan-unknown-type", "rpan-empty", "rpan-twice", "removepipeline-unknown-type", "removepipeline-empty",
 	"removenode-unknown", "removenode-inuse", "removenode-empty", "registernode-empty", "registernode-deny", "registernode-badpolicy",
 	"registerpipeline-unknown-node", "registerpipeline-malformed", "registerpipeline-empty", "registerpipeline-deny", "registerpipeline-badpolicy",
-	"threshold-negative", "threshold-empty", "thresholdsinks-negative", "thresholdsinks-empty", "send-unknown-type", "send-threshold-unmet"}
+	"threshold-negative", "threshold-empty", "thresholdsinks-negative", "thresholdsinks-empty", "send-unknown-type", "send-precancelled", "send-threshold-unmet"}
 
 // Scenarios enumerates operation x re-entering callback x pending groups x parked writer.
 func Scenarios() []Scenario {
